@@ -67,7 +67,8 @@ def _split(base, rng, intersect=None, format_range=range2parts):
 def _merge_raw_update(base, rng):
     if _has_same_sheet(base, rng):
         if base['n1'] == rng['n2'] and int(base['r2']) + 1 >= int(rng['r1']):
-            base['r2'] = rng['r2']
+            if int(rng['r2']) > int(base['r2']):  # Never shrink the base.
+                base['r2'] = rng['r2']
             return True
 
 
